@@ -3,6 +3,7 @@
 package c06
 
 import (
+	"encoding/json"
 	"io"
 	"log/slog"
 	"sync"
@@ -19,7 +20,8 @@ func run(c *core.Ctx) {
 	// cedar logs every handshake step at INFO through the default logger
 	slog.SetDefault(slog.New(slog.NewTextHandler(io.Discard, &slog.HandlerOptions{Level: slog.LevelError})))
 	c.Assume("AES-GCM and SHA-256 of the Go standard library are correct; cryptography is symbolic in the model (a requester holds the session key, another key, or none)")
-	c.Assume("virtual time: the model's clock is bound to real cache entries by Store-ing a replacement entry (same id, key, policy, lease, tag) with an expiry in the past / far future; no time.Now() call is intercepted")
+	c.Assume("virtual time: one tick = 1800 s; the server announces SessionDuration = Duration and SessionLease = Lease ticks (Duration > Lease); after every real step SessionEntry.Expiration() is read back, converted to ticks and compared with the model's expiry, then the entry is replaced (Store, same id, key, policy, lease, tag) by one expiring at now + (expiry - clock) ticks + half a tick; no time.Now() call is intercepted, nothing sleeps")
+	c.Assume("an unauthenticated session is realised in two ways (alternating): Authentication OPTIONAL on both sides with CLAIMTOBE listed by both (a method is negotiated, no exchange runs), or Authentication NEVER with method NONE")
 	c.Assume("sessions are established by real handshakes (CLAIMTOBE or no authentication; AES or no common cipher); storeSession files them in the process-global cache; three placements are exercised: the harness moves the entry into the server's own SessionCache, or leaves it in the global cache with the server configured with its own (empty) SessionCache (global fallback) or with none; session ids are unique, so parallel scenarios do not see each other's entries")
 	if sessreal.ReplayFile(c, "C06") {
 		return
@@ -41,6 +43,16 @@ func run(c *core.Ctx) {
 		}
 		kit.ModelCheck(c, "SessionCache.tla", mc, tlc.Options{Workers: 12})
 	}()
+	// quick: two sessions / life cycles <= 3, and (concurrently) one session / life
+	// cycles <= 5 (establish, renew, idle past the lease, ... then every attack)
+	var deep []json.RawMessage
+	if !c.Thorough() {
+		wg.Add(1)
+		go func() {
+			defer wg.Done()
+			deep = sessreal.Generate(c, "Gen_SessionCache.tla", "Gen_C06_quick_deep.cfg", tlc.Options{})
+		}()
+	}
 	raws := sessreal.Generate(c, "Gen_SessionCache.tla", gen, tlc.Options{})
 	if c.Thorough() {
 		// longer histories: seeded random life cycles of 7 steps, then every attack
@@ -49,6 +61,8 @@ func run(c *core.Ctx) {
 		c.Set("seeded_walk_behaviours", len(walks))
 		raws = append(raws, walks...)
 	}
+	wg.Wait()
+	raws = append(raws, deep...)
 	scs := sessreal.ParseAll(c, raws)
 	wg.Wait()
 	if c.IsBroken() {
@@ -93,7 +107,7 @@ func run(c *core.Ctx) {
 		for _, r := range reqs {
 			for _, p := range pos {
 				for _, f := range fracs {
-					jobs = append(jobs, sessreal.Job{Kind: "C06", Sc: sc, V06: sessreal.Variant06{Requester: r, OneOffPos: p, CutFrac: f}})
+					jobs = append(jobs, sessreal.Job{Kind: "C06", Sc: sc, V06: sessreal.Variant06{Requester: r, OneOffPos: p, CutFrac: f, AnonNever: si%2 == 1}})
 				}
 			}
 		}
@@ -104,12 +118,12 @@ func run(c *core.Ctx) {
 			r := reqs[(si+k)%len(reqs)]
 			if c.Thorough() {
 				for _, r := range reqs {
-					jobs = append(jobs, sessreal.Job{Kind: "C06", Sc: sc, V06: sessreal.Variant06{Requester: r, OneOffPos: pos[0], CutFrac: fracs[0], Placement: pl}})
+					jobs = append(jobs, sessreal.Job{Kind: "C06", Sc: sc, V06: sessreal.Variant06{Requester: r, OneOffPos: pos[0], CutFrac: fracs[0], Placement: pl, AnonNever: (si+k)%2 == 0}})
 					placed++
 				}
 				continue
 			}
-			jobs = append(jobs, sessreal.Job{Kind: "C06", Sc: sc, V06: sessreal.Variant06{Requester: r, OneOffPos: pos[len(pos)-1], CutFrac: fracs[len(fracs)-1], Placement: pl}})
+			jobs = append(jobs, sessreal.Job{Kind: "C06", Sc: sc, V06: sessreal.Variant06{Requester: r, OneOffPos: pos[len(pos)-1], CutFrac: fracs[len(fracs)-1], Placement: pl, AnonNever: (si+k)%2 == 0}})
 			placed++
 		}
 	}
@@ -123,6 +137,7 @@ func run(c *core.Ctx) {
 	c.Set("real_replays", t.S06.Replays)
 	c.Set("frames_opened_by_reference_decryptor", t.S06.FramesOpenedByRef)
 	c.Set("lease_renewed_on_resume", t.S06.LeaseRenewed)
+	c.Set("expiries_read_back_and_compared", t.S06.ExpiryReadBack)
 	if t.S06.LeaseNotRenewed > 0 {
 		c.Note("observation (outside the statement): a successful resumption / RenewLease did not move the expiry to now+lease in some executions")
 		c.Set("lease_not_renewed", t.S06.LeaseNotRenewed)
